@@ -256,6 +256,17 @@ func descV(u, i int, x any) {
 				s = fmt.Sprintf("%v", fv.Interface())
 			}
 			out(u, i, "V.field", k, fv.Kind().String(), fv.Type().String(), fv.CanInterface(), fv.CanSet(), fv.CanAddr(), fv.IsZero(), s)
+			// one level down through embedded structs: the access rights of promoted fields
+			if t.Field(k).Anonymous && fv.Kind() == reflect.Struct {
+				for j := 0; j < fv.NumField(); j++ {
+					nf := fv.Field(j)
+					ns := "-"
+					if nf.CanInterface() && fmtSafe(nf, 1) {
+						ns = fmt.Sprintf("%v", nf.Interface())
+					}
+					out(u, i, "V.field.promoted", k, j, fv.Type().Field(j).Name, nf.CanInterface(), nf.CanSet(), ns)
+				}
+			}
 		}
 		for _, n := range fieldProbe {
 			func() {
@@ -274,6 +285,11 @@ func descV(u, i int, x any) {
 		for k := 0; k < t.NumField(); k++ {
 			fv := pv.Elem().Field(k)
 			out(u, i, "V.addrfield", k, fv.CanSet(), fv.CanAddr(), fv.CanInterface())
+			if t.Field(k).Anonymous && fv.Kind() == reflect.Struct {
+				for j := 0; j < fv.NumField(); j++ {
+					out(u, i, "V.addrfield.promoted", k, j, fv.Field(j).CanSet(), fv.Field(j).CanInterface())
+				}
+			}
 			if fv.CanSet() {
 				fv.Set(reflect.Zero(fv.Type()))
 			}
@@ -334,6 +350,25 @@ func descV(u, i int, x any) {
 			}
 		}()
 		return v.Equal(nv)
+	}())
+	// comparing and hashing through interfaces: must panic exactly for incomparable dynamic types
+	out(u, i, "V.ifaceeq", func() (r any) {
+		defer func() {
+			if recover() != nil {
+				r = "PANIC"
+			}
+		}()
+		return x == x
+	}())
+	out(u, i, "V.mapkey", func() (r any) {
+		defer func() {
+			if recover() != nil {
+				r = "PANIC"
+			}
+		}()
+		m := map[any]int{}
+		m[x] = 1
+		return len(m)
 	}())
 	// methods through the value and through a pointer to a copy
 	callAll(u, i, "V.call", v)
